@@ -118,3 +118,18 @@ PROPS["C06"] = {
     ],
     "assumptions": ["structural table edits are exercised on opened tables whose rows have equal length and no merges; on other tables they fall under the known findings of C09"],
 }
+
+PROPS["C16"] = {
+    "n": {"quick": 1500, "thorough": 30000},
+    "per_shard": 50,
+    "corr_targets": ["Corr/TemplateCorr.vo"],
+    "corr": "Corr/TemplateCorr.v: Model.Template.render_str (the engine's passes with the text re-lexed between the steps) vs TemplateEngine.RenderToDocument on generated templates and data, values with directive-like text included; per case also: the template text lexes to the tokens of its syntax tree, and the token-level pipeline of the theorem equals the text-level one (brace-free cases) and the reference (cases under the theorem's premises)",
+    "trusted_base": [
+        "Model/Template.v is hand-written from template.go (renderTemplate and its passes); the lexer lex mirrors the engine's regular expressions ({{\\w+}}, {{#if\\s+\\w+}}, {{#each\\s+\\w+}}, {{/if}}, {{/each}}, {{else}}, {{this}}, {{@index}}, {{@first}}, {{@last}})",
+        "the link from the token-level pipeline (theorem) to the text-level engine is validated per generated case, not proved",
+        "blocks/inheritance and image placeholders are not modelled; the workload does not use them",
+        "{{this}} for an item that is a map prints Go's %v of the map in the engine and the empty string in the model; the workload does not use it",
+        "field values that are placeholders of sibling fields are not generated (the engine's result then depends on Go's map iteration order)",
+    ],
+    "assumptions": ["global variable names and item field names are disjoint; variable names are not 'this' or 'else'"],
+}
